@@ -9,7 +9,7 @@ use serde::{Deserialize, Serialize};
 
 use crate::engine::data_types::*;
 use crate::mem_store::*;
-use crate::stringpack::StringPackerIterator;
+use crate::stringpack::{PackedBytesIterator, PackedStrings, StringPackerIterator};
 
 #[derive(Serialize, Deserialize, Clone)]
 pub struct Column {
@@ -88,14 +88,37 @@ impl DataSource for Column {
         Type::new(self.basic_type(), self.codec())
     }
     fn decompressed(&self) -> Option<Column> {
-        match self.codec.ops().first() {
+        let mut copy = match self.codec.ops().first() {
             Some(CodecOp::LZ4(..)) | Some(CodecOp::Pco(..)) => {
                 let mut copy = self.clone();
                 copy.lz4_or_pco_decode();
                 Some(copy)
             }
             _ => None,
+        };
+        // `decode` has no owner for unpacked hex strings: hand it plain packed strings instead.
+        let ops = copy.as_ref().map(|c| c.codec.ops()).unwrap_or(self.codec.ops());
+        if let Some(CodecOp::UnhexpackStrings(uppercase, _)) = ops.first().copied() {
+            let source = copy.as_ref().unwrap_or(self);
+            if let DataSection::U8(packed) = &source.data[0] {
+                let strings = PackedBytesIterator::from_slice(packed)
+                    .map(|bytes| {
+                        if uppercase {
+                            hex::encode_upper(bytes)
+                        } else {
+                            hex::encode(bytes)
+                        }
+                    })
+                    .collect::<Vec<_>>();
+                let repacked = PackedStrings::from_iterator(strings.iter().map(|s| s.as_str()));
+                let mut ops = source.codec.ops().to_vec();
+                ops[0] = CodecOp::UnpackStrings;
+                let mut data = source.data.clone();
+                data[0] = DataSection::U8(repacked.into_vec());
+                copy = Some(Column::new(&source.name, source.len, source.range, ops, data));
+            }
         }
+        copy
     }
 }
 
